@@ -84,7 +84,7 @@ class BiasedDepolarizingErrorModel(SimpleErrorModel):
         elif self.axis == 'Z':
             p_x, p_y, p_z = p_lr, p_lr, p_hr
         # with no-error sum to 1
-        p_i = 1 - sum((p_x, p_y, p_z))
+        p_i = max(0.0, 1 - sum((p_x, p_y, p_z)))  # rounding can leave the sum a few ulp above 1
         return p_i, p_x, p_y, p_z
 
     @property
